@@ -46,22 +46,26 @@ func toFloat(n any) (float64, bool) {
 	return 0, false
 }
 
-// taggedToJSON turns [t |-> .., v |-> ..] into a plain JSON value (numbers de-scaled).
+// taggedToJSON turns a tagged tuple <<tag, payload>> (JSON array) into a plain JSON value (numbers de-scaled).
 func taggedToJSON(v any) any {
-	m, ok := v.(obj)
-	if !ok {
+	m, ok := v.([]any)
+	if !ok || len(m) == 0 {
 		return v
 	}
-	switch m["t"] {
+	var pay any
+	if len(m) > 1 {
+		pay = m[1]
+	}
+	switch m[0] {
 	case "null":
 		return nil
 	case "num":
-		return descale(m["v"])
+		return descale(pay)
 	case "str", "bool":
-		return m["v"]
+		return pay
 	case "arr":
 		out := []any{}
-		if l, ok := m["v"].([]any); ok {
+		if l, ok := pay.([]any); ok {
 			for _, e := range l {
 				out = append(out, taggedToJSON(e))
 			}
@@ -69,7 +73,7 @@ func taggedToJSON(v any) any {
 		return out
 	case "obj":
 		out := obj{}
-		if mm, ok := m["v"].(obj); ok {
+		if mm, ok := pay.(obj); ok {
 			for k, e := range mm {
 				out[k] = taggedToJSON(e)
 			}
@@ -84,40 +88,40 @@ func taggedToJSON(v any) any {
 func jsonToTagged(v any) any {
 	switch x := v.(type) {
 	case nil:
-		return obj{"t": "null"}
+		return []any{"null"}
 	case bool:
-		return obj{"t": "bool", "v": x}
+		return []any{"bool", x}
 	case string:
-		return obj{"t": "str", "v": x}
+		return []any{"str", x}
 	case json.Number:
 		f, err := x.Float64()
 		if err == nil {
 			d := f * 2
 			if d == float64(int64(d)) && d < 1<<30 && d > -(1<<30) {
-				return obj{"t": "num", "v": int64(d)}
+				return []any{"num", int64(d)}
 			}
 		}
-		return obj{"t": "numx", "v": x.String()}
+		return []any{"numx", x.String()}
 	case float64:
 		d := x * 2
 		if d == float64(int64(d)) && d < 1<<30 && d > -(1<<30) {
-			return obj{"t": "num", "v": int64(d)}
+			return []any{"num", int64(d)}
 		}
-		return obj{"t": "numx", "v": fmt.Sprint(x)}
+		return []any{"numx", fmt.Sprint(x)}
 	case []any:
 		out := []any{}
 		for _, e := range x {
 			out = append(out, jsonToTagged(e))
 		}
-		return obj{"t": "arr", "v": out}
+		return []any{"arr", out}
 	case map[string]any:
 		out := obj{}
 		for k, e := range x {
 			out[k] = jsonToTagged(e)
 		}
-		return obj{"t": "obj", "v": out}
+		return []any{"obj", out}
 	}
-	return obj{"t": "str", "v": fmt.Sprint(v)}
+	return []any{"str", fmt.Sprint(v)}
 }
 
 func isNumericType(t any) bool { return t == "integer" || t == "number" }
